@@ -106,7 +106,9 @@ def compile_string(script: str) -> CompilerOutput:
     Returns:
         CompilerOutput: The Compiler Output
     """
-    decoded_program = base64.b64decode(script).decode("utf-8")
+    # "utf-8-sig": a program saved with a byte order mark compiles from its path
+    # (the import system strips the mark) and must compile from a string as well.
+    decoded_program = base64.b64decode(script).decode("utf-8-sig")
     temp_name = "temp_program"
     spec = importlib.util.spec_from_loader(temp_name, loader=None)
     module = importlib.util.module_from_spec(spec)
